@@ -69,6 +69,8 @@ def run(ctx):
             if ci % 3 == 2:     # a list of different sims: seeds kept as given
                 seeds = [base, base + 7, base + 3]
                 mine = [make_sim(kind, sd) for sd in seeds]
+                mine[0].label = mine[2].label = 'same label'; mine[1].label = 'other'      # labels need not be unique
+                inplace = True
                 msim = ss.MultiSim(mine, inplace=inplace, shrink=False); msim.run(parallel=bool(ci % 2), n_cpus=2)
                 for i, (sd, s) in enumerate(zip(seeds, msim.sims)):
                     ctx.count((kind, base, 'list', i), nontrivial=True); ctx.dist('member of MultiSim(list)')
@@ -94,6 +96,16 @@ def run(ctx):
             for use_mean in (False, True):
                 ms2 = ss.MultiSim(copy.deepcopy(members)); ms2.sims = copy.deepcopy(members)
                 ms2.reduce(use_mean=use_mean, quantiles=None if use_mean else {'low': 0.1, 'high': 0.9})
+                # reducing does not touch the members: each still holds its own results, and reducing again gives the same statistics
+                for i, (mm, orig) in enumerate(zip(ms2.sims, members)):
+                    dch = diff_keys(fingerprint(orig, states=False), fingerprint(mm, states=False))
+                    if dch: viol(f'{kind}: reduce(use_mean={use_mean}) changed member {i} ({dch[0]})', dict(W, member=i)); break
+                first = {k: (np.asarray(ms2.results[k]).copy(), np.asarray(ms2.results[k].low).copy(), np.asarray(ms2.results[k].high).copy()) for k in keys[:12]}
+                ms2.reduce(use_mean=use_mean, quantiles=None if use_mean else {'low': 0.1, 'high': 0.9})
+                for k in keys[:12]:
+                    again = (np.asarray(ms2.results[k]), np.asarray(ms2.results[k].low), np.asarray(ms2.results[k].high))
+                    if not all(np.allclose(a, b, rtol=1e-12, atol=1e-12, equal_nan=True) for a, b in zip(first[k], again)):
+                        viol(f'{kind}: reducing the same members a second time gives another {k}', dict(W, key=k)); break
                 perm = list(range(len(members))); rng.shuffle(perm)
                 ms3 = ss.MultiSim(copy.deepcopy(members)); ms3.sims = [copy.deepcopy(members[j]) for j in perm]
                 ms3.reduce(use_mean=use_mean, quantiles=None if use_mean else {'low': 0.1, 'high': 0.9})
